@@ -28,6 +28,7 @@ import (
 	"strings"
 	"sync"
 	"testing"
+	"time"
 
 	"github.com/IBM/sarama"
 	"go.uber.org/zap"
@@ -69,6 +70,18 @@ type vcEnv struct {
 	topics   []string
 	table    map[string]*vcTrow
 	failing  map[int32]bool
+}
+
+// mayPanic: some scripted answer has ErrNoError and no offsets (timing hint for the child process only)
+func (e *vcEnv) mayPanic() bool {
+	for _, row := range e.table {
+		for _, pr := range row.rows {
+			if pr.kerr == 0 && len(pr.offs) == 0 {
+				return true
+			}
+		}
+	}
+	return false
 }
 
 func vcTopicName(id int64) string { return "t" + strconv.FormatInt(id, 10) }
@@ -270,7 +283,7 @@ func vcB01(b bool) string {
 }
 
 // vcScenario runs the cycles on a fresh module; emit is called with each finished cycle's text.
-func vcScenario(t *vcToks, emit func(string)) {
+func vcScenario(t *vcToks, child bool, emit func(string)) {
 	n := t.int()
 	envs := make([]*vcEnv, n)
 	for i := range envs {
@@ -292,6 +305,11 @@ func vcScenario(t *vcToks, emit func(string)) {
 			module.fetchMetadata = true // case <-module.metadataTicker.C
 		}
 		module.getOffsets(client) // case <-module.offsetTicker.C
+		if child && e.mayPanic() {
+			// A panicking goroutine of getOffsets runs its deferred wg.Done() before the runtime kills the process, so
+			// getOffsets may return here while the process is dying: wait for the death before reporting the cycle.
+			time.Sleep(150 * time.Millisecond)
+		}
 		var ups, dels, asks [][]int64
 		other := 0
 	drain:
@@ -360,7 +378,7 @@ func TestVerifProbeCluster(t *testing.T) {
 		switch {
 		case kind == "scn" || (kind == "scnx" && child):
 			first := true
-			vcScenario(tk, func(s string) {
+			vcScenario(tk, child, func(s string) {
 				if !first {
 					w.WriteString(" | ")
 				}
